@@ -10,6 +10,7 @@ import Pastel.Model.Parser
 import Mathlib.Data.List.TakeWhile
 import Pastel.Lemmas.Turns
 import Pastel.Lemmas.ParseDigits
+import Pastel.Lemmas.ParseStart
 
 namespace Pastel.C01
 open Pastel Pastel.P
@@ -413,6 +414,167 @@ theorem rgb_digits_meaning (a : Char) (as : List Char) (b : Char) (bs : List Cha
   simp only []
   unfold altList
   simp only [hnum]
+
+/-! ### the other functional notations with decimal integers -/
+
+/-- **`hsl(H,S%,L%)` / `hsl(H, S%, L%)` with decimal integers** is accepted and denotes
+`from_hsla(H, S/100, L/100, 1)` — for all runs of digits (any length, so also values outside the
+ranges, which the constructor clamps / reduces). -/
+theorem hsl_digits_meaning (a : Char) (as : List Char) (b : Char) (bs : List Char) (c : Char) (cs : List Char)
+    (sp : List Char) (hsp : sp = [] ∨ sp = [' '])
+    (ha : (a :: as).all isDigit = true) (hb : (b :: bs).all isDigit = true) (hc : (c :: cs).all isDigit = true) :
+    parseColor ('h' :: 's' :: 'l' :: '(' ::
+        ((a :: as) ++ ',' :: (sp ++ ((b :: bs) ++ '%' :: ',' :: (sp ++ ((c :: cs) ++ ['%', ')'])))))) =
+      some (fromHsla (digitsVal (a :: as)) (digitsVal (b :: bs) / 100.0) (digitsVal (c :: cs) / 100.0) 1.0) := by
+  have h3 := three_angle_pct a as b bs c cs sp hsp ha hb hc
+  generalize hX : (a :: as) ++ ',' :: (sp ++ ((b :: bs) ++ '%' :: ',' :: (sp ++ ((c :: cs) ++ ['%', ')'])))) = X at h3 ⊢
+  have hXl : ∃ mid, X = mid ++ [')'] := by
+    refine ⟨(a :: as) ++ ',' :: (sp ++ ((b :: bs) ++ '%' :: ',' :: (sp ++ ((c :: cs) ++ ['%'])))), ?_⟩
+    rw [← hX]; simp
+  obtain ⟨mid, hmid⟩ := hXl
+  have htrim : trim ('h' :: 's' :: 'l' :: '(' :: X) = 'h' :: 's' :: 'l' :: '(' :: X := by
+    rw [hmid]
+    exact trim_id 'h' ('s' :: 'l' :: '(' :: mid) ')' (by decide) (by decide)
+  have hhsl : parseHsl ('h' :: 's' :: 'l' :: '(' :: X) =
+      .ok [] (fromHsla (digitsVal (a :: as)) (digitsVal (b :: bs) / 100.0) (digitsVal (c :: cs) / 100.0) 1.0) := by
+    unfold parseHsl tag2 tag
+    simp [List.isPrefixOf, h3, PR.bind]
+  unfold parseColor parseColorWith
+  rw [htrim]
+  rw [altList_cons_err _ _ _ (allConsuming_err _ _ (parseHex_start _ _ (by decide) (by decide))),
+    altList_cons_err _ _ _ (allConsuming_err _ _ (parseNumericRgb_start _ _ notNumStart_h)),
+    altList_cons_err _ _ _ (allConsuming_err _ _ (parsePercentageRgb_start _ _ notNumStart_h)),
+    altList_cons_ok _ _ _ _ _ (allConsuming_ok _ _ _ hhsl)]
+
+/-- The same for `hsv(H,S%,V%)`: `from_hsva(H, S/100, V/100, 1)`. -/
+theorem hsv_digits_meaning (a : Char) (as : List Char) (b : Char) (bs : List Char) (c : Char) (cs : List Char)
+    (sp : List Char) (hsp : sp = [] ∨ sp = [' '])
+    (ha : (a :: as).all isDigit = true) (hb : (b :: bs).all isDigit = true) (hc : (c :: cs).all isDigit = true) :
+    parseColor ('h' :: 's' :: 'v' :: '(' ::
+        ((a :: as) ++ ',' :: (sp ++ ((b :: bs) ++ '%' :: ',' :: (sp ++ ((c :: cs) ++ ['%', ')'])))))) =
+      some (fromHsva (digitsVal (a :: as)) (digitsVal (b :: bs) / 100.0) (digitsVal (c :: cs) / 100.0) 1.0) := by
+  have h3 := three_angle_pct a as b bs c cs sp hsp ha hb hc
+  generalize hX : (a :: as) ++ ',' :: (sp ++ ((b :: bs) ++ '%' :: ',' :: (sp ++ ((c :: cs) ++ ['%', ')'])))) = X at h3 ⊢
+  have hXl : ∃ mid, X = mid ++ [')'] := by
+    refine ⟨(a :: as) ++ ',' :: (sp ++ ((b :: bs) ++ '%' :: ',' :: (sp ++ ((c :: cs) ++ ['%'])))), ?_⟩
+    rw [← hX]; simp
+  obtain ⟨mid, hmid⟩ := hXl
+  have htrim : trim ('h' :: 's' :: 'v' :: '(' :: X) = 'h' :: 's' :: 'v' :: '(' :: X := by
+    rw [hmid]
+    exact trim_id 'h' ('s' :: 'v' :: '(' :: mid) ')' (by decide) (by decide)
+  have hhsl : parseHsl ('h' :: 's' :: 'v' :: '(' :: X) = .err := by
+    unfold parseHsl tag2 tag
+    simp [List.isPrefixOf, PR.bind]
+  have hhsv : parseHsv ('h' :: 's' :: 'v' :: '(' :: X) =
+      .ok [] (fromHsva (digitsVal (a :: as)) (digitsVal (b :: bs) / 100.0) (digitsVal (c :: cs) / 100.0) 1.0) := by
+    unfold parseHsv tag2 tag
+    simp [List.isPrefixOf, h3, PR.bind]
+  unfold parseColor parseColorWith
+  rw [htrim]
+  rw [altList_cons_err _ _ _ (allConsuming_err _ _ (parseHex_start _ _ (by decide) (by decide))),
+    altList_cons_err _ _ _ (allConsuming_err _ _ (parseNumericRgb_start _ _ notNumStart_h)),
+    altList_cons_err _ _ _ (allConsuming_err _ _ (parsePercentageRgb_start _ _ notNumStart_h)),
+    altList_cons_err _ _ _ (allConsuming_err _ _ hhsl),
+    altList_cons_ok _ _ _ _ _ (allConsuming_ok _ _ _ hhsv)]
+
+/-- **`lab(L,A,B)` / `lab(L, A, B)` with decimal integers** is accepted and denotes
+`from_lab(L, A, B, 1)`. -/
+theorem lab_digits_meaning (a : Char) (as : List Char) (b : Char) (bs : List Char) (c : Char) (cs : List Char)
+    (sp : List Char) (hsp : sp = [] ∨ sp = [' '])
+    (ha : (a :: as).all isDigit = true) (hb : (b :: bs).all isDigit = true) (hc : (c :: cs).all isDigit = true) :
+    parseColor ('l' :: 'a' :: 'b' :: '(' :: ((a :: as) ++ ',' :: (sp ++ ((b :: bs) ++ ',' :: (sp ++ ((c :: cs) ++ [')'])))))) =
+      some (fromLab (digitsVal (a :: as)) (digitsVal (b :: bs)) (digitsVal (c :: cs)) 1.0) := by
+  have h3 := three_digits a as b bs c cs sp hsp ha hb hc
+  generalize hX : (a :: as) ++ ',' :: (sp ++ ((b :: bs) ++ ',' :: (sp ++ ((c :: cs) ++ [')'])))) = X at h3 ⊢
+  have hXl : ∃ mid, X = mid ++ [')'] := by
+    refine ⟨(a :: as) ++ ',' :: (sp ++ ((b :: bs) ++ ',' :: (sp ++ (c :: cs)))), ?_⟩
+    rw [← hX]; simp
+  obtain ⟨mid, hmid⟩ := hXl
+  have htrim : trim ('l' :: 'a' :: 'b' :: '(' :: X) = 'l' :: 'a' :: 'b' :: '(' :: X := by
+    rw [hmid]
+    exact trim_id 'l' ('a' :: 'b' :: '(' :: mid) ')' (by decide) (by decide)
+  have hlab : parseLab ('l' :: 'a' :: 'b' :: '(' :: X) =
+      .ok [] (fromLab (digitsVal (a :: as)) (digitsVal (b :: bs)) (digitsVal (c :: cs)) 1.0) := by
+    unfold parseLab
+    rw [optCie_l]
+    simp only [PR.bind, tagNoCase_lab, h3]
+  unfold parseColor parseColorWith
+  rw [htrim]
+  rw [altList_cons_err _ _ _ (allConsuming_err _ _ (parseHex_start _ _ (by decide) (by decide))),
+    altList_cons_err _ _ _ (allConsuming_err _ _ (parseNumericRgb_start _ _ notNumStart_l)),
+    altList_cons_err _ _ _ (allConsuming_err _ _ (parsePercentageRgb_start _ _ notNumStart_l)),
+    altList_cons_err _ _ _ (allConsuming_err _ _ (parseHsl_start _ _ (by decide))),
+    altList_cons_err _ _ _ (allConsuming_err _ _ (parseHsv_start _ _ (by decide))),
+    altList_cons_err _ _ _ (allConsuming_err _ _ (parseGray_start _ _ (by decide))),
+    altList_cons_ok _ _ _ _ _ (allConsuming_ok _ _ _ hlab)]
+
+/-- **`lch(L,C,H)` with decimal integers** denotes `from_lch(L, C, H, 1)`. -/
+theorem lch_digits_meaning (a : Char) (as : List Char) (b : Char) (bs : List Char) (c : Char) (cs : List Char)
+    (sp : List Char) (hsp : sp = [] ∨ sp = [' '])
+    (ha : (a :: as).all isDigit = true) (hb : (b :: bs).all isDigit = true) (hc : (c :: cs).all isDigit = true) :
+    parseColor ('l' :: 'c' :: 'h' :: '(' :: ((a :: as) ++ ',' :: (sp ++ ((b :: bs) ++ ',' :: (sp ++ ((c :: cs) ++ [')'])))))) =
+      some (fromLch (digitsVal (a :: as)) (digitsVal (b :: bs)) (digitsVal (c :: cs)) 1.0) := by
+  have h3 := three_num_num_angle a as b bs c cs sp hsp ha hb hc
+  generalize hX : (a :: as) ++ ',' :: (sp ++ ((b :: bs) ++ ',' :: (sp ++ ((c :: cs) ++ [')'])))) = X at h3 ⊢
+  have hXl : ∃ mid, X = mid ++ [')'] := by
+    refine ⟨(a :: as) ++ ',' :: (sp ++ ((b :: bs) ++ ',' :: (sp ++ (c :: cs)))), ?_⟩
+    rw [← hX]; simp
+  obtain ⟨mid, hmid⟩ := hXl
+  have htrim : trim ('l' :: 'c' :: 'h' :: '(' :: X) = 'l' :: 'c' :: 'h' :: '(' :: X := by
+    rw [hmid]
+    exact trim_id 'l' ('c' :: 'h' :: '(' :: mid) ')' (by decide) (by decide)
+  have hlch : parseLch ('l' :: 'c' :: 'h' :: '(' :: X) =
+      .ok [] (fromLch (digitsVal (a :: as)) (digitsVal (b :: bs)) (digitsVal (c :: cs)) 1.0) := by
+    unfold parseLch
+    rw [optCie_l]
+    simp only [PR.bind, tagNoCase_lch, h3]
+  unfold parseColor parseColorWith
+  rw [htrim]
+  rw [altList_cons_err _ _ _ (allConsuming_err _ _ (parseHex_start _ _ (by decide) (by decide))),
+    altList_cons_err _ _ _ (allConsuming_err _ _ (parseNumericRgb_start _ _ notNumStart_l)),
+    altList_cons_err _ _ _ (allConsuming_err _ _ (parsePercentageRgb_start _ _ notNumStart_l)),
+    altList_cons_err _ _ _ (allConsuming_err _ _ (parseHsl_start _ _ (by decide))),
+    altList_cons_err _ _ _ (allConsuming_err _ _ (parseHsv_start _ _ (by decide))),
+    altList_cons_err _ _ _ (allConsuming_err _ _ (parseGray_start _ _ (by decide))),
+    altList_cons_err _ _ _ (allConsuming_err _ _ (parseLab_lch _)),
+    altList_cons_err _ _ _ (allConsuming_err _ _ (parseOklab_l _)),
+    altList_cons_ok _ _ _ _ _ (allConsuming_ok _ _ _ hlch)]
+
+/-- **`oklab(L,A,B)` with decimal integers** denotes `from_oklab(L, A, B, 1)`. -/
+theorem oklab_digits_meaning (a : Char) (as : List Char) (b : Char) (bs : List Char) (c : Char) (cs : List Char)
+    (sp : List Char) (hsp : sp = [] ∨ sp = [' '])
+    (ha : (a :: as).all isDigit = true) (hb : (b :: bs).all isDigit = true) (hc : (c :: cs).all isDigit = true) :
+    parseColor ('o' :: 'k' :: 'l' :: 'a' :: 'b' :: '(' :: ((a :: as) ++ ',' :: (sp ++ ((b :: bs) ++ ',' :: (sp ++ ((c :: cs) ++ [')'])))))) =
+      some (fromOklab (digitsVal (a :: as)) (digitsVal (b :: bs)) (digitsVal (c :: cs)) 1.0) := by
+  have h3 := three_digits a as b bs c cs sp hsp ha hb hc
+  generalize hX : (a :: as) ++ ',' :: (sp ++ ((b :: bs) ++ ',' :: (sp ++ ((c :: cs) ++ [')'])))) = X at h3 ⊢
+  have hXl : ∃ mid, X = mid ++ [')'] := by
+    refine ⟨(a :: as) ++ ',' :: (sp ++ ((b :: bs) ++ ',' :: (sp ++ (c :: cs)))), ?_⟩
+    rw [← hX]; simp
+  obtain ⟨mid, hmid⟩ := hXl
+  have htrim : trim ('o' :: 'k' :: 'l' :: 'a' :: 'b' :: '(' :: X) = 'o' :: 'k' :: 'l' :: 'a' :: 'b' :: '(' :: X := by
+    rw [hmid]
+    exact trim_id 'o' ('k' :: 'l' :: 'a' :: 'b' :: '(' :: mid) ')' (by decide) (by decide)
+  have hok : parseOklab ('o' :: 'k' :: 'l' :: 'a' :: 'b' :: '(' :: X) =
+      .ok [] (fromOklab (digitsVal (a :: as)) (digitsVal (b :: bs)) (digitsVal (c :: cs)) 1.0) := by
+    unfold parseOklab
+    simp only [PR.bind, tagNoCase_oklab, h3]
+  unfold parseColor parseColorWith
+  rw [htrim]
+  rw [altList_cons_err _ _ _ (allConsuming_err _ _ (parseHex_start _ _ (by decide) (by decide))),
+    altList_cons_err _ _ _ (allConsuming_err _ _ (parseNumericRgb_start _ _ notNumStart_o)),
+    altList_cons_err _ _ _ (allConsuming_err _ _ (parsePercentageRgb_start _ _ notNumStart_o)),
+    altList_cons_err _ _ _ (allConsuming_err _ _ (parseHsl_start _ _ (by decide))),
+    altList_cons_err _ _ _ (allConsuming_err _ _ (parseHsv_start _ _ (by decide))),
+    altList_cons_err _ _ _ (allConsuming_err _ _ (parseGray_start _ _ (by decide))),
+    altList_cons_err _ _ _ (allConsuming_err _ _ (parseLab_o _)),
+    altList_cons_ok _ _ _ _ _ (allConsuming_ok _ _ _ hok)]
+
+/-- Non-vacuity: the statements instantiate to ordinary strings. -/
+example : parseColor "hsl(120, 50%, 25%)".toList = some (fromHsla (digitsVal "120".toList) (digitsVal "50".toList / 100.0) (digitsVal "25".toList / 100.0) 1.0) :=
+  hsl_digits_meaning '1' ['2', '0'] '5' ['0'] '2' ['5'] [' '] (Or.inr rfl) (by decide) (by decide) (by decide)
+example : parseColor "lch(70,35,300)".toList = some (fromLch (digitsVal "70".toList) (digitsVal "35".toList) (digitsVal "300".toList) 1.0) :=
+  lch_digits_meaning '7' ['0'] '3' ['5'] '3' ['0', '0'] [] (Or.inl rfl) (by decide) (by decide) (by decide)
 
 /-! ### angles reduced modulo a turn -/
 
